@@ -6,6 +6,7 @@ import (
 	"reflect"
 	"strconv"
 	"strings"
+	"sync"
 	"testing"
 
 	"pault.ag/go/debian/control"
@@ -27,6 +28,18 @@ type probeScalars struct {
 	Skipped  string `control:"-"`
 	Multi    string `control:"Multi-Line" multiline:"true"`
 	Text     string // plain string that may hold several lines
+	// a skipped member of struct kind whose members are named like document fields
+	SkippedMeta probeMeta `control:"-"`
+	// unexported members: not part of the document either way (encoding/* convention)
+	hidden    string
+	hiddenVer version.Version
+	mu        sync.Mutex
+}
+
+type probeMeta struct {
+	Str string
+	Num int
+	Req string `required:"true"`
 }
 
 type probeLists struct {
@@ -41,6 +54,10 @@ type probeLists struct {
 	MD5s    []control.MD5FileHash    `control:"Files" delim:"\n" strip:"\n\r\t "`
 	SHA256s []control.SHA256FileHash `control:"Checksums-Sha256" delim:"\n" strip:"\n\r\t " multiline:"true"`
 	Nums    []int                    `control:"Num-List"`
+	// required lists: written even when empty, and an empty one reads back as empty
+	ReqWords []string          `control:"Req-Words" required:"true"`
+	ReqNums  []int             `control:"Req-Nums" required:"true"`
+	ReqVers  []version.Version `control:"Req-Vers" delim:", " required:"true"`
 }
 
 type probePointers struct {
@@ -94,7 +111,7 @@ func genScalarsCase(t *rapid.T) ScalarsCase {
 	case 1:
 		c.Num = rapid.IntRange(-1000, 1000).Draw(t, "num")
 	case 2:
-		c.Num = rapid.SampledFrom([]int{math.MaxInt64, math.MinInt64, math.MaxInt32, math.MinInt32, -1, 1}).Draw(t, "numedge")
+		c.Num = rapid.SampledFrom([]int{math.MaxInt, math.MinInt, math.MaxInt32, math.MinInt32, -1, 1}).Draw(t, "numedge")
 	default:
 		c.Num = rapid.Int().Draw(t, "numany")
 	}
@@ -157,7 +174,7 @@ func dropFieldLines(text, field string) string {
 
 var specC09Scalars = Register(&Spec[ScalarsCase]{
 	Prop: "C09", Name: "scalars",
-	Rule: "values of a probe struct with string, int (full range), uint (full range incl. > MaxInt64), bool, renamed (control:\"X-Renamed\"), required (one possibly empty, one always empty), skipped (control:\"-\"), multiline:\"true\" and plain multi-line string fields; strings are single lines without surrounding blanks, multi-line texts are C08 line sequences. Oracle: Unmarshal(Marshal(x)) == x field by field (multi-line strings up to one trailing newline, skipped field stays zero); in the emitted paragraph optional fields with empty rendering are absent, required ones present; removing a required field's lines makes Unmarshal fail. Non-trivial: >= 3 non-zero fields; distinct by value.",
+	Rule: "values of a probe struct with string, int (full range), uint (full range incl. > MaxInt64), bool, renamed (control:\"X-Renamed\"), required (one possibly empty, one always empty), skipped (control:\"-\", on a string member and on a struct-kind member whose own members are named like document fields), unexported members (string, version.Version, sync.Mutex: neither written nor read), multiline:\"true\" and plain multi-line string fields; strings are single lines without surrounding blanks, multi-line texts are C08 line sequences. Oracle: Unmarshal(Marshal(x)) == x field by field (multi-line strings up to one trailing newline, skipped field stays zero); in the emitted paragraph optional fields with empty rendering are absent, required ones present; removing a required field's lines makes Unmarshal fail. Non-trivial: >= 3 non-zero fields; distinct by value.",
 	Check: func(c ScalarsCase, r *Recorder) error {
 		nz := 0
 		for _, s := range []string{c.Str, c.Renamed, c.Req, c.Multi, c.Text} {
@@ -189,6 +206,10 @@ var specC09Scalars = Register(&Spec[ScalarsCase]{
 			r.Sample(c)
 		}
 		x := probeScalars{Str: c.Str, Num: c.Num, UNum: uint(c.UNum), Flag: c.Flag, Renamed: c.Renamed, Req: c.Req, Skipped: c.Skipped, Multi: c.Multi, Text: c.Text}
+		if c.Skipped != "" {
+			x.SkippedMeta = probeMeta{Str: c.Skipped, Num: 7}
+			x.hidden, x.hiddenVer = c.Skipped, version.Version{Epoch: 1, Version: "2", Revision: "3"}
+		}
 		text, err := marshalToText(&x)
 		if err != nil {
 			return errf("Marshal(%+v) failed: %v", x, err)
@@ -205,7 +226,7 @@ var specC09Scalars = Register(&Spec[ScalarsCase]{
 				return errf("field %q present=%v, want %v in %q (value %+v)", k, has(k), want, text, x)
 			}
 		}
-		for _, k := range []string{"Skipped", "-", "Renamed", "ReqEmpty", "Multi"} {
+		for _, k := range []string{"Skipped", "-", "Renamed", "ReqEmpty", "Multi", "SkippedMeta", "hidden", "hiddenVer", "mu"} {
 			if has(k) {
 				return errf("field %q must not be emitted (text %q)", k, text)
 			}
@@ -220,6 +241,12 @@ var specC09Scalars = Register(&Spec[ScalarsCase]{
 		if y.Skipped != "" {
 			return errf("skipped field was decoded: %q", y.Skipped)
 		}
+		if y.SkippedMeta != (probeMeta{}) {
+			return errf("skipped struct member was filled from %q: %+v", text, y.SkippedMeta)
+		}
+		if y.hidden != "" || y.hiddenVer != (version.Version{}) {
+			return errf("unexported members were written by Unmarshal: %q %+v", y.hidden, y.hiddenVer)
+		}
 		if !sameUpToTrailingNewline(y.Multi, x.Multi) || !sameUpToTrailingNewline(y.Text, x.Text) {
 			return errf("round trip changed a multi-line string: wrote %q / %q as %q, read %q / %q", x.Multi, x.Text, text, y.Multi, y.Text)
 		}
@@ -232,13 +259,12 @@ var specC09Scalars = Register(&Spec[ScalarsCase]{
 		if err := control.UnpackFromParagraph(*para2, &viaPara); err != nil {
 			return errf("UnpackFromParagraph(ConvertToParagraph(x)) failed: %v", err)
 		}
-		wantVia := x
-		wantVia.Skipped = ""
+		wantVia := probeScalars{Str: x.Str, Num: x.Num, UNum: x.UNum, Flag: x.Flag, Renamed: x.Renamed, Req: x.Req, Multi: x.Multi, Text: x.Text}
 		if viaPara.Multi != "" || x.Multi != "" {
 			// the multiline tag adds its layout newline in front; the text form removes it again
 			viaPara.Multi = strings.TrimPrefix(viaPara.Multi, "\n")
 		}
-		if viaPara != wantVia {
+		if !reflect.DeepEqual(&viaPara, &wantVia) {
 			return errf("ConvertToParagraph/UnpackFromParagraph changed the value: %+v became %+v", wantVia, viaPara)
 		}
 		for _, req := range []string{"Req", "Req-Empty"} {
@@ -271,6 +297,9 @@ type ListsCase struct {
 	Archs                       []string
 	MD5s, SHA256s               []HashLine
 	Nums                        []int
+	ReqWords                    []string
+	ReqNums                     []int
+	ReqVers                     []string
 }
 
 func genWord(t *rapid.T, label string) string {
@@ -298,7 +327,7 @@ func genHashLines(t *rapid.T, label string, hexLen int, max int) []HashLine {
 	n := rapid.IntRange(0, max).Draw(t, label+"n")
 	var out []HashLine
 	for i := 0; i < n; i++ {
-		out = append(out, HashLine{Hash: genHex(t, label+"h", hexLen), Size: int64(rapid.IntRange(0, 1<<40).Draw(t, label+"s")), Name: genFileName(t, label+"f")})
+		out = append(out, HashLine{Hash: genHex(t, label+"h", hexLen), Size: rapid.Int64Range(0, 1<<40).Draw(t, label+"s"), Name: genFileName(t, label+"f")})
 	}
 	return out
 }
@@ -347,6 +376,13 @@ func genListsCase(t *rapid.T) ListsCase {
 	for i := 0; i < nn; i++ {
 		c.Nums = append(c.Nums, rapid.IntRange(-5, 1000000).Draw(t, "num"))
 	}
+	c.ReqWords = genWords(t, "reqwords", 3)
+	for i := rapid.IntRange(0, 2).Draw(t, "nreqnums"); i > 0; i-- {
+		c.ReqNums = append(c.ReqNums, rapid.IntRange(-5, 1000).Draw(t, "reqnum"))
+	}
+	for i := rapid.IntRange(0, 2).Draw(t, "nreqvers"); i > 0; i-- {
+		c.ReqVers = append(c.ReqVers, genWellFormedCore(t, "reqver").canonical())
+	}
 	return c
 }
 
@@ -364,7 +400,7 @@ func strSliceEq(a, b []string) bool {
 
 var specC09Lists = Register(&Spec[ListsCase]{
 	Prop: "C09", Name: "lists",
-	Rule: "values of a probe struct with []string (default blank delimiter; delim \", \" with elements containing single blanks; delim \",\" + strip \" \"; newline-delimited multiline list), []int, version.Version, dependency.Dependency (canonical C04 renderings incl. substvars), dependency.Arch, []dependency.Arch, []MD5FileHash and multiline []SHA256FileHash; list lengths 0..5. Oracle: Unmarshal(Marshal(x)) == x field by field (nil == empty slice; versions by parts; dependencies structurally; arches by triple; file hashes by (algorithm, hash, size, name)); empty lists and zero custom values are omitted. Non-trivial: >= 3 non-zero fields of >= 3 kinds; distinct by value.",
+	Rule: "values of a probe struct with []string (default blank delimiter; delim \", \" with elements containing single blanks; delim \",\" + strip \" \"; newline-delimited multiline list), []int, version.Version, dependency.Dependency (canonical C04 renderings incl. substvars), dependency.Arch, []dependency.Arch, []MD5FileHash and multiline []SHA256FileHash, and three required lists ([]string, []int, []version.Version with delim \", \"); list lengths 0..5. Oracle: Unmarshal(Marshal(x)) == x field by field (nil == empty slice; versions by parts; dependencies structurally; arches by triple; file hashes by (algorithm, hash, size, name)); empty lists and zero custom values are omitted, required lists are written even when empty and an empty one reads back as an empty list. Non-trivial: >= 3 non-zero fields of >= 3 kinds; distinct by value.",
 	Check: func(c ListsCase, r *Recorder) error {
 		kinds := 0
 		for _, l := range [][]string{c.Words, c.Commas, c.Loose, c.Lines, c.Archs} {
@@ -387,7 +423,17 @@ var specC09Lists = Register(&Spec[ListsCase]{
 		if kinds >= 3 {
 			r.Sample(c)
 		}
-		x := probeLists{Words: c.Words, Commas: c.Commas, Loose: c.Loose, Lines: c.Lines, Nums: c.Nums}
+		x := probeLists{Words: c.Words, Commas: c.Commas, Loose: c.Loose, Lines: c.Lines, Nums: c.Nums, ReqWords: c.ReqWords, ReqNums: c.ReqNums}
+		for _, vs := range c.ReqVers {
+			v, err := version.Parse(vs)
+			if err != nil {
+				return nil
+			}
+			x.ReqVers = append(x.ReqVers, v)
+		}
+		if len(c.ReqWords) == 0 || len(c.ReqNums) == 0 || len(c.ReqVers) == 0 {
+			r.Count("empty-required-list", 1)
+		}
 		if c.Ver != "" {
 			v, err := version.Parse(c.Ver)
 			if err != nil {
@@ -437,20 +483,46 @@ var specC09Lists = Register(&Spec[ListsCase]{
 		}
 		has := func(k string) bool { _, ok := para.Values[k]; return ok }
 		present := map[string]bool{"Words": len(c.Words) > 0, "Commas": len(c.Commas) > 0, "Loose-List": len(c.Loose) > 0, "Lines": len(c.Lines) > 0,
-			"Version": c.Ver != "", "Depends": c.Dep != "", "Architecture": c.Arch != "", "Arch-List": len(c.Archs) > 0, "Files": len(c.MD5s) > 0, "Checksums-Sha256": len(c.SHA256s) > 0, "Num-List": len(c.Nums) > 0}
+			"Version": c.Ver != "", "Depends": c.Dep != "", "Architecture": c.Arch != "", "Arch-List": len(c.Archs) > 0, "Files": len(c.MD5s) > 0, "Checksums-Sha256": len(c.SHA256s) > 0, "Num-List": len(c.Nums) > 0,
+			"Req-Words": true, "Req-Nums": true, "Req-Vers": true}
 		for k, want := range present {
 			if has(k) != want {
 				return errf("field %q present=%v, want %v in %q", k, has(k), want, text)
 			}
 		}
 		var y probeLists
-		if text != "" {
+		{
 			if err := control.Unmarshal(&y, strings.NewReader(text)); err != nil {
 				return errf("Unmarshal of marshalled text %q failed: %v", text, err)
 			}
 		}
 		if !strSliceEq(y.Words, c.Words) || !strSliceEq(y.Commas, c.Commas) || !strSliceEq(y.Loose, c.Loose) || !strSliceEq(y.Lines, c.Lines) {
 			return errf("string lists changed: wrote %q %q %q %q as %q, read %q %q %q %q", c.Words, c.Commas, c.Loose, c.Lines, text, y.Words, y.Commas, y.Loose, y.Lines)
+		}
+		// the same variable decoded into a second time: a list the document carries replaces the
+		// member's previous content, it is not appended to it
+		used := probeLists{Words: []string{"old1", "old2"}, ReqWords: []string{"old"}, ReqNums: []int{9, 9}, Archs: []dependency.Arch{{ABI: "gnu", OS: "linux", CPU: "old"}}}
+		if err := control.Unmarshal(&used, strings.NewReader(text)); err != nil {
+			return errf("Unmarshal of %q into a used variable failed: %v", text, err)
+		}
+		if !strSliceEq(used.ReqWords, c.ReqWords) || len(used.ReqNums) != len(c.ReqNums) || (len(c.Words) > 0 && !strSliceEq(used.Words, c.Words)) || (len(c.Archs) > 0 && len(used.Archs) != len(c.Archs)) {
+			return errf("decoding %q into a variable that held lists before gives Words %q Req-Words %q Req-Nums %v Archs %v: old elements survive", text, used.Words, used.ReqWords, used.ReqNums, used.Archs)
+		}
+		if !strSliceEq(y.ReqWords, c.ReqWords) {
+			return errf("required string list changed: wrote %q as %q, read %q", c.ReqWords, text, y.ReqWords)
+		}
+		if len(y.ReqNums) != len(c.ReqNums) || len(y.ReqVers) != len(x.ReqVers) {
+			return errf("required lists changed: wrote %v %v as %q, read %v %v", c.ReqNums, c.ReqVers, text, y.ReqNums, y.ReqVers)
+		}
+		for i := range c.ReqNums {
+			if y.ReqNums[i] != c.ReqNums[i] {
+				return errf("required int list changed: wrote %v as %q, read %v", c.ReqNums, text, y.ReqNums)
+			}
+		}
+		for i := range x.ReqVers {
+			if y.ReqVers[i] != x.ReqVers[i] {
+				return errf("required version list changed: wrote %v as %q, read %v", x.ReqVers, text, y.ReqVers)
+			}
 		}
 		if len(y.Nums) != len(c.Nums) {
 			return errf("int list changed: wrote %v as %q, read %v", c.Nums, text, y.Nums)
@@ -513,7 +585,7 @@ type PanicCase struct {
 
 var specC09NoPanic = Register(&Spec[PanicCase]{
 	Prop: "C09", Name: "nopanic",
-	Rule: "Marshal / ConvertToParagraph of zero values, nil slices and structs with pointer fields (each nil or set, all 16 combinations) for every probe type, by value and by pointer. Oracle: returns (possibly an error) without panicking; when it succeeds, set pointer fields show their pointee's rendering and nil ones are absent. Non-trivial: at least one pointer field is nil; distinct by combination.",
+	Rule: "Marshal / ConvertToParagraph of zero values, nil slices, typed nil pointers, structs with unexported members (scalar, struct-kind, sync.Mutex; zero and set) and structs with pointer fields (each nil or set, all 16 combinations) for every probe type, by value and by pointer. Oracle: returns (possibly an error) without panicking; when it succeeds, set pointer fields show their pointee's rendering and nil ones are absent. Non-trivial: at least one pointer field is nil; distinct by combination.",
 	Check: func(c PanicCase, r *Recorder) error {
 		nilAny := !(c.SetStr && c.SetInt && c.SetVer && c.SetB)
 		r.Case(jsonKey(c), nilAny, "kind:"+c.Kind)
@@ -535,30 +607,45 @@ var specC09NoPanic = Register(&Spec[PanicCase]{
 			// kinds the encoder does not know must come back as an error, not a panic
 			type inner struct{ A string }
 			type odd struct {
-				F  float64
-				M  map[string]string
-				C  chan int
-				Fn func()
-				I  interface{}
-				In inner
-				Ar [2]string
-				PP **string
-				U8 uint8
+				F   float64
+				M   map[string]string
+				C   chan int
+				Fn  func()
+				I   interface{}
+				In  inner
+				Ar  [2]string
+				PP  **string
+				U8  uint8
 				I64 int64
 			}
 			s := "x"
 			ps := &s
 			for _, v := range []interface{}{odd{}, &odd{}, odd{F: 1.5, M: map[string]string{"a": "b"}, I: 3, In: inner{"q"}, Ar: [2]string{"a", "b"}, PP: &ps, U8: 7, I64: -9},
 				[]odd{{}, {F: 2}}, 42, "str", nil, &s, []string{"a"}, map[string]string{}} {
-				func() {
-					defer func() {
-						if p := recover(); p != nil && v != nil {
-							panic(p)
-						}
-					}()
-					_, _ = marshalToText(v)
-				}()
+				_, _ = marshalToText(v)
 			}
+			// typed nil pointers, structs with unexported members (set and unset)
+			type priv struct {
+				Name   string
+				hidden string
+				cached version.Version
+				in     inner
+				mu     sync.Mutex
+				Pub    version.Version
+			}
+			var np *priv
+			var npl *probeLists
+			for _, v := range []interface{}{np, npl, priv{Name: "x"}, &priv{Name: "x", hidden: "h", cached: version.Version{Version: "1"}, in: inner{"q"}, Pub: version.Version{Version: "2"}}, []priv{{hidden: "h", cached: version.Version{Version: "1"}}}} {
+				_, _ = marshalToText(v)
+				_, _ = control.ConvertToParagraph(v)
+			}
+			var q priv
+			_ = control.Unmarshal(&q, strings.NewReader("Name: x\nhidden: h\ncached: 1.0\nin: x\nA: q\nmu: 1\nPub: 2.0\n"))
+			if q.hidden != "" || q.cached != (version.Version{}) || q.in != (inner{}) {
+				return errf("Unmarshal wrote unexported members: %+v", q)
+			}
+			var qs []priv
+			_ = control.Unmarshal(&qs, strings.NewReader("Name: x\nhidden: h\n\nName: y\n"))
 			var y odd
 			_ = control.Unmarshal(&y, strings.NewReader("F: 1.5\nM: x\nC: 1\nFn: x\nI: 3\nA: q\nAr: a b\nPP: x\nU8: 7\nI64: -9\n"))
 			var z int
